@@ -152,20 +152,21 @@ type Sim struct {
 	Step   int
 	Log    []string // readable schedule (actions + notable effects)
 
-	Commits   []*CommitRec
-	Sigs      []*SigRec
-	sigIndex  map[string]map[string]*SigRec // "signer|view" -> payload -> rec
-	DoubleSig []string                      // honest double-sign descriptions (invariant d)
-	Proposed  map[string]int                // block hash hex -> step first seen in a PROPOSE message
-	GateFails []string
-	LastProp  *lib.Proposers
-	blockCtr  []int
-	candCache map[[2]uint64][]Cand
-	delivered map[[2]int]bool
-	Stats     Stats
-	StopAt    int // when > 0: timers and deliveries become no-ops once Step reaches it (the scenario is "cut" here)
-	mu        sync.Mutex
-	quiet     bool
+	Commits           []*CommitRec
+	Sigs              []*SigRec
+	sigIndex          map[string]map[string]*SigRec // "signer|view" -> payload -> rec
+	DoubleSig         []string                      // honest double-sign descriptions (invariant d)
+	Proposed          map[string]int                // block hash hex -> step first seen in a PROPOSE message
+	GateFails         []string
+	PacemakerMismatch []string // Pacemaker() results that differ from the documented rule (reference recomputation)
+	LastProp          *lib.Proposers
+	blockCtr          []int
+	candCache         map[[2]uint64][]Cand
+	delivered         map[[2]int]bool
+	Stats             Stats
+	StopAt            int // when > 0: timers and deliveries become no-ops once Step reaches it (the scenario is "cut" here)
+	mu                sync.Mutex
+	quiet             bool
 }
 
 // Stats are measured facts about a run used by the non-trivial rules of the checks.
@@ -376,9 +377,17 @@ func (s *Sim) FireTimer(i int) []*Env {
 	if ph == Pacemaker && hadLock != nil && !r.Byz {
 		s.Stats.RoundChangeLocked++
 	}
+	wantRound, checkPM := uint64(0), false
+	if ph == Pacemaker {
+		wantRound, checkPM = s.refPacemaker(r), true
+	}
 	r.C.Lock()
 	r.B.HandlePhase()
 	r.C.Unlock()
+	if checkPM && r.B.Round != wantRound && r.C.rootH == rh {
+		s.PacemakerMismatch = append(s.PacemakerMismatch, fmt.Sprintf("replica %d: Pacemaker() left round %d for round %d, the documented rule (own round+1, or the highest round that validators holding >= ceil(T/3) have reached according to their pacemaker messages, if higher) gives %d; messages: %s",
+			i, rd, r.B.Round, wantRound, s.pmDump(r)))
+	}
 	r.C.flushSelf()
 	eff := ""
 	if r.B.HighQC != nil && r.B.HighQC != hadLock && ph == PrecommitVote {
@@ -407,6 +416,52 @@ func (s *Sim) FireTimer(i int) []*Env {
 	}
 	s.logf("T%d(%d.%d.%s%s)", i, rh, rd, phaseShort[ph], eff)
 	return s.Pool[before:]
+}
+
+// refPacemaker recomputes what BFT.Pacemaker() documents: the replica moves to its round+1, or - if higher - to the highest
+// round R such that the validators whose last pacemaker message names a round >= R hold at least ceil(T/3) of the power.
+func (s *Sim) refPacemaker(r *Replica) uint64 {
+	type pm struct {
+		round uint64
+		power uint64
+	}
+	var l []pm
+	for _, m := range r.B.PacemakerMessages {
+		if m == nil || m.Qc == nil || m.Qc.Header == nil || m.Signature == nil {
+			continue
+		}
+		if i := s.IdxOf(m.Signature.PublicKey); i >= 0 {
+			l = append(l, pm{m.Qc.Header.Round, s.Cfg.Power[i]})
+		}
+	}
+	sort.Slice(l, func(a, b int) bool { return l[a].round > l[b].round })
+	need := s.Total / 3
+	if s.Total%3 != 0 {
+		need++
+	}
+	want := r.B.Round + 1
+	var sum uint64
+	for _, x := range l {
+		sum += x.power
+		if sum >= need {
+			if x.round > want {
+				want = x.round
+			}
+			break
+		}
+	}
+	return want
+}
+
+func (s *Sim) pmDump(r *Replica) string {
+	var out []string
+	for _, m := range r.B.PacemakerMessages {
+		if m != nil && m.Qc != nil && m.Qc.Header != nil && m.Signature != nil {
+			out = append(out, fmt.Sprintf("v%d@r%d", s.IdxOf(m.Signature.PublicKey), m.Qc.Header.Round))
+		}
+	}
+	sort.Strings(out)
+	return strings.Join(out, ",")
 }
 
 // Deliver hands a private copy of pool message id to replica `to`. The error is what HandleMessage said.
